@@ -488,7 +488,7 @@ func runCheck(prop, tier string) int {
 	code := report(pl, res, workDir, time.Since(t0))
 	os.Remove(binPlain)
 	os.Remove(binRace)
-	if code != 1 && os.Getenv("VERIF_KEEP") == "" {
+	if code == 0 && os.Getenv("VERIF_KEEP") == "" {
 		os.RemoveAll(workDir) // kept only when a violation was reported (logs, goroutine dumps, race reports)
 	}
 	return code
